@@ -135,9 +135,8 @@ CLAIMED = {
              '(non-singleton) nodes are C02.',
         ref='DESIGN.md §7 C01'),
     'C15': dict(
-        technique='Lean 4 proof of a shortest-path oracle (Floyd-Warshall by structural recursion, path checker), stated also about the '
-                  'shortest_path wrapper and the graph mutators regenerated from the source on every run (tools/rs2lean_ugraphfns.py, '
-                  'Props/C15Gen.lean through Props/C08Gen.lean) + translation '
+        technique='Lean 4 proof of a shortest-path oracle (Floyd-Warshall by structural recursion, path checker); the same statements about the '
+                  'shortest_path wrapper and the graph mutators regenerated from the source (Props/C15Gen.lean) are checked by C08\'s run + translation '
                   'validation: every answer of the real shortest_path (petgraph astar) on generated graphs is judged by the proved oracle',
         text='Theorems c15_fw_correct (fw = minimum over all walks, none iff no walk), c15_table_is_fw, c15_bound_covers, '
              'c15_checkPath_sound/_complete (accepted iff a real path of the graph with that weight), c15_minDist_correct, '
@@ -147,7 +146,7 @@ CLAIMED = {
              'reached by any build/removal history (via the C08 refinement). petgraph astar itself is NOT modelled step by step: '
              'its result is validated per generated input by this oracle, up to ties (translation validation). Props/C15Gen.lean: '
              'shortest_path_is_model, c15gen_guards, c15gen_shortest_path_judged_ok — the same statements about the generated '
-             'shortest_path (guards, astar as an external parameter, path copy) on every graph reached by the generated mutators.',
+             'shortest_path (guards, astar as an external parameter, path copy) on every graph reached by the generated mutators (built and audited by the check of C08).',
         note='Trusted: Lean kernel; the oracle statements; rs2lean_ugraphfns.py and the petgraph primitives it writes against; the correspondence run (graphs from C08-style histories incl. cycles, zero '
              'weights, ties, self-loops, removals; all ordered pairs incl. absent end points); petgraph astar not proved; path sums < 2^63.',
         ref='DESIGN.md §7 C15'),
